@@ -907,7 +907,7 @@ DLLEXPORT void tjFree(unsigned char *buf)
 DLLEXPORT size_t tj3JPEGBufSize(int width, int height, int jpegSubsamp)
 {
   static const char FUNCTION_NAME[] = "tj3JPEGBufSize";
-  unsigned long long retval = 0;
+  unsigned long long retval = 0, pw, ph;
   int mcuw, mcuh, chromasf;
 
   if (width < 1 || height < 1 || jpegSubsamp < TJSAMP_UNKNOWN ||
@@ -923,7 +923,11 @@ DLLEXPORT size_t tj3JPEGBufSize(int width, int height, int jpegSubsamp)
   mcuw = tjMCUWidth[jpegSubsamp];
   mcuh = tjMCUHeight[jpegSubsamp];
   chromasf = jpegSubsamp == TJSAMP_GRAY ? 0 : 4 * 64 / (mcuw * mcuh);
-  retval = PAD(width, mcuw) * PAD(height, mcuh) * (2ULL + chromasf) + 2048ULL;
+  pw = PAD((unsigned long long)width, mcuw);
+  ph = PAD((unsigned long long)height, mcuh);
+  if (ph > (ULLONG_MAX - 2048ULL) / (2ULL + chromasf) / pw)
+    THROWG("Image is too large", 0);
+  retval = pw * ph * (2ULL + chromasf) + 2048ULL;
 #if ULLONG_MAX > ULONG_MAX
   if (retval > (unsigned long long)((unsigned long)-1))
     THROWG("Image is too large", 0);
@@ -952,7 +956,7 @@ bailout:
 DLLEXPORT unsigned long TJBUFSIZE(int width, int height)
 {
   static const char FUNCTION_NAME[] = "TJBUFSIZE";
-  unsigned long long retval = 0;
+  unsigned long long retval = 0, pw, ph;
 
   if (width < 1 || height < 1)
     THROWG("Invalid argument", (unsigned long)-1);
@@ -960,7 +964,11 @@ DLLEXPORT unsigned long TJBUFSIZE(int width, int height)
   /* This allows for rare corner cases in which a JPEG image can actually be
      larger than the uncompressed input (we wouldn't mention it if it hadn't
      happened before.) */
-  retval = PAD(width, 16) * PAD(height, 16) * 6ULL + 2048ULL;
+  pw = PAD((unsigned long long)width, 16);
+  ph = PAD((unsigned long long)height, 16);
+  if (ph > (ULLONG_MAX - 2048ULL) / 6ULL / pw)
+    THROWG("Image is too large", (unsigned long)-1);
+  retval = pw * ph * 6ULL + 2048ULL;
 #if ULLONG_MAX > ULONG_MAX
   if (retval > (unsigned long long)((unsigned long)-1))
     THROWG("Image is too large", (unsigned long)-1);
@@ -984,11 +992,13 @@ DLLEXPORT size_t tj3YUVBufSize(int width, int align, int height, int subsamp)
   nc = (subsamp == TJSAMP_GRAY ? 1 : 3);
   for (i = 0; i < nc; i++) {
     int pw = tj3YUVPlaneWidth(i, width, subsamp);
-    int stride = PAD(pw, align);
+    unsigned long long stride = PAD((unsigned long long)pw, align);
     int ph = tj3YUVPlaneHeight(i, height, subsamp);
 
     if (pw == 0 || ph == 0) return 0;
-    else retval += (unsigned long long)stride * ph;
+    if (stride > (unsigned long long)INT_MAX)
+      THROWG("Image or row alignment is too large", 0);
+    retval += stride * ph;
   }
 #if ULLONG_MAX > ULONG_MAX
   if (retval > (unsigned long long)((unsigned long)-1))
@@ -1025,7 +1035,7 @@ DLLEXPORT size_t tj3YUVPlaneSize(int componentID, int width, int stride,
                                  int height, int subsamp)
 {
   static const char FUNCTION_NAME[] = "tj3YUVPlaneSize";
-  unsigned long long retval = 0;
+  unsigned long long retval = 0, ustride;
   int pw, ph;
 
   if (width < 1 || height < 1 || subsamp < 0 || subsamp >= TJ_NUMSAMP)
@@ -1035,10 +1045,11 @@ DLLEXPORT size_t tj3YUVPlaneSize(int componentID, int width, int stride,
   ph = tj3YUVPlaneHeight(componentID, height, subsamp);
   if (pw == 0 || ph == 0) return 0;
 
-  if (stride == 0) stride = pw;
-  else stride = abs(stride);
+  if (stride == 0) ustride = pw;
+  else if (stride < 0) ustride = (unsigned long long)(-(long long)stride);
+  else ustride = stride;
 
-  retval = (unsigned long long)stride * (ph - 1) + pw;
+  retval = ustride * (ph - 1) + pw;
 #if ULLONG_MAX > ULONG_MAX
   if (retval > (unsigned long long)((unsigned long)-1))
     THROWG("Image is too large", 0);
